@@ -26,6 +26,7 @@ type CConfig struct {
 	RoleOps     bool     `json:"role_ops"`     // new governance administrators and the audit-administrator cycle are registered during the run (grant clause of C14)
 	RuleOps     bool     `json:"rule_ops"`     // rule lifecycle: further rules are registered, the master rule is updated through governance (approved or rejected), rules are logged out
 	RefRestart  []int    `json:"ref_restart"`  // profiles with a single replica: it is stopped and reopened after these block indexes
+	Rejected    bool     `json:"rejected,omitempty"` // before the chains were registered, the outsider applied for the same chain ids and was rejected
 	KV          bool     `json:"kv,omitempty"` // a user WASM contract with storage is deployed and invoked (succeeding, trapping, running out of gas)
 	BigBlocks   bool     `json:"big_blocks"`   // few cuts: most blocks are filled to the sequencer's limit
 }
@@ -116,6 +117,19 @@ func Generate(prop string, r *sim.Rand, tier string) *sim.Plan {
 		cfg.Replicas = cfg.Replicas[:1]
 	}
 	switch prop {
+	case "C14":
+		// balance queries of API clients land between the statements of the executor's flush/commit path
+		if r.Chance(0.6) {
+			cfg.Replicas[0].ApiReader = []int{30, 80, 200}[r.Intn(3)]
+		}
+	case "C01":
+		for i := 1; i < len(cfg.Replicas); i++ {
+			if !cfg.Replicas[i].Reader && r.Chance(0.4) {
+				cfg.Replicas[i].ApiReader = []int{30, 80, 200}[r.Intn(3)]
+			}
+		}
+	}
+	switch prop {
 	case "C07", "C02", "C03", "C17", "C09", "C12":
 		cfg.Twin = true
 	}
@@ -133,6 +147,7 @@ func Generate(prop string, r *sim.Rand, tier string) *sim.Plan {
 	}
 	cfg.BigBlocks = r.Chance(0.35)
 	cfg.KV = (prop == "C07" || prop == "C01") && r.Chance(0.5)
+	cfg.Rejected = prop == "C17" && r.Chance(0.5)
 	if cfg.KV && r.Chance(0.8) {
 		// running out of gas means burning the whole limit: a smaller limit keeps those transactions cheap
 		cfg.World.GasLimit = []uint64{1000000, 3000000, 10000000}[r.Intn(3)]
@@ -297,6 +312,11 @@ func (g *gen) govOp() CStep {
 	case 3:
 		// the appchain is updated by its admin (name, admin list)
 		st.Obj, st.Act, st.Role = "chain", "update", "chainadmin"
+	case 4:
+		if r.Chance(0.5) {
+			// somebody registers an appchain under the id of an existing one (whatever its status, logged out included)
+			st.Obj, st.Act, st.Role = "chain", "reregister", "outsider"
+		}
 	}
 	if g.cfg.Late && r.Chance(0.25) {
 		// submit the registration of the chain's late service (again, if it was submitted before)
@@ -341,6 +361,9 @@ func (g *gen) step(prop string) []CStep {
 		}
 		if g.cfg.RuleOps && r.Chance(0.08) {
 			return []CStep{CStep{Op: "ruleop", A: r.Intn(4), N: r.Intn(2), Act: []string{"update", "update", "update", "register", "logout"}[r.Intn(5)], V: []string{"approve", "approve", "reject"}[r.Intn(3)]}}
+		}
+		if prop == "C15" && r.Chance(0.02) {
+			return []CStep{CStep{Op: "rolecycle", A: r.Intn(4), B: r.Intn(4), N: r.Intn(3)}}
 		}
 		switch r.Weighted(wg) {
 		case 0:
@@ -588,6 +611,14 @@ func SimplifyConfig(raw json.RawMessage) []json.RawMessage {
 			c.Replicas = append([]Policy(nil), cfg.Replicas...)
 			q := p
 			q.Reader = false
+			c.Replicas[i] = q
+			out = append(out, sim.MustJSON(c))
+		}
+		if p.ApiReader != 0 {
+			c := cfg
+			c.Replicas = append([]Policy(nil), cfg.Replicas...)
+			q := p
+			q.ApiReader = 0
 			c.Replicas[i] = q
 			out = append(out, sim.MustJSON(c))
 		}
